@@ -624,6 +624,18 @@ class NAHooks(Hooks):
                     raise _np_err(e)
                 return wrap(res, promote(a.dt, b.dt))
             return cross
+        if name == 'take_along_axis':
+            def taa(arr, indices, axis):
+                arr, indices = na_of(arr), na_of(indices)
+                idx = _np.empty(indices.a.shape, dtype=_np.intp)
+                for i in _np.ndindex(*indices.a.shape):
+                    idx[i] = _const(indices.a[i])
+                try:
+                    res = _np.take_along_axis(arr.a, idx, axis)
+                except (ValueError, IndexError) as e:
+                    raise _np_err(e)
+                return NA(res, arr.dt)
+            return taa
         if name == 'einsum':
             def einsum(subs, *ops, **k):
                 if not isinstance(subs, str) or k:
@@ -1030,7 +1042,11 @@ class NAHooks(Hooks):
             D = p * t - q * r
             inner = PA.root(S2 * S2 - 4 * D * D, 2, signs)
             s1 = PA.root((S2 + inner) / 2, 2, signs)
-            s2 = PA.root((S2 - inner) / 2, 2, signs)
+            # s1 s2 = |det| (no cancellation, unlike the minus branch)
+            if PA.reduce_full(s1).n.is_zero():
+                s2 = zero
+            else:
+                s2 = PA.abs_nf(D, signs or PA.Signs()) / s1
             S_[idx + (0,)], S_[idx + (1,)] = s1, s2
             if not compute_uv:
                 continue
